@@ -129,6 +129,21 @@ func tokenize(s string) ([]token, error) {
 			}
 			res = append(res, tok)
 			i += l - 1
+		case c == '-' && strings.HasPrefix(s[i:], "--"):
+			// comment until the end of the line. SQLite keeps comments in the
+			// SQL text it stores in sqlite_master.
+			if n := strings.IndexByte(s[i:], '\n'); n >= 0 {
+				i += n
+			} else {
+				i = len(s) - l
+			}
+		case c == '/' && strings.HasPrefix(s[i:], "/*"):
+			// comment until */ (or the end of the text)
+			if n := strings.Index(s[i+2:], "*/"); n >= 0 {
+				i += 2 + n + 2 - l
+			} else {
+				i = len(s) - l
+			}
 		default:
 			switch c {
 			case '>', '<', '|', '/', '%', '&', '=', '!':
